@@ -87,10 +87,7 @@ Definition gcase_diag (c : gcase) : list bool :=
   let intel := intel_of (gc_grid c) in
   let els := fun e => nth e (gd_els (gc_grid c)) (0, 0, 0)%nat in
   [ vec_ok (gc_tol c) (length (gc_proj c)) (project nel dim (gc_rule c) intel Sp ev (gf_f c)) (gc_proj c);
-    (* the code as it stands (multipliers applied twice) or the repaired code (docs/fixes/c13_integrate_multipliers.diff);
-       the two differ only for signed multipliers, where the search reports the finding *)
-    vec_ok (gc_tol c) dim (integrate nel (gc_rule c) intel Sp ev (gf_coef c)) (gc_int c) ||
-    vec_ok (gc_tol c) dim (integrate_direct nel (gc_rule c) intel Sp ev (gf_coef c)) (gc_int c);
+    vec_ok (gc_tol c) dim (integrate nel (gc_rule c) intel Sp ev (gf_coef c)) (gc_int c);
     forallb (fun d => vec_ok (gc_tol c) nel (fun e => eval_centers (gc_third c) Sp ev (gf_coef c) e d)
                              (nth d (gc_centers c) [])) (seq 0 dim);
     forallb (fun d => vec_ok (gc_tol c) (gc_nvert c)
@@ -99,22 +96,19 @@ Definition gcase_diag (c : gcase) : list bool :=
                              (repeat 0 (gc_nvert c))) (seq 0 dim) ].
 Definition gcase_ok (c : gcase) : bool := forallb (fun b => b) (gcase_diag c).
 
-(* MultiplicationOperator (scalar 'component' mode): the code's triplets, duplicates summed *)
+(* MultiplicationOperator: mode 0 = 'component' (all three spaces of the same codomain dimension), 1 = 'inner'
+   (scalar test space, vector-valued trial space and grid function); duplicates summed *)
 Record mcase := mkMCase {
-  mc_grid : griddata; mc_gx : geoextra; mc_test : spdata; mc_kt : nat; mc_trial : spdata; mc_kr : nat;
+  mc_grid : griddata; mc_gx : geoextra; mc_mode : nat; mc_test : spdata; mc_kt : nat; mc_trial : spdata; mc_kr : nat;
   mc_fun : spdata; mc_kf : nat; mc_gcoef : list dy; mc_rule : list (P2 * dy);
   mc_rows : nat; mc_cols : nat; mc_impl : list (list dy); mc_tol : dy }.
 Definition mcase_ok (c : mcase) : bool :=
   let G := to_geom (mc_grid c) in
   let b := fun k d => basis_of k G (mc_gx c) (mult_of d) (nm_of d) in
-  let run := fun (f : nat -> nat -> list (P2 * dy) -> (nat -> dy) -> space dy -> space dy -> space dy ->
-                      @basisfn dy -> @basisfn dy -> @basisfn dy -> (nat -> dy) -> list (@trip dy)) =>
-    matrix_ok (mc_tol c)
-      (f (gd_nel (mc_grid c)) (dim_of (mc_kt c)) (mc_rule c) (intel_of (mc_grid c))
-         (to_space (mc_test c)) (to_space (mc_trial c)) (to_space (mc_fun c))
-         (b (mc_kt c) (mc_test c)) (b (mc_kr c) (mc_trial c)) (b (mc_kf c) (mc_fun c))
-         (fun k => nth k (mc_gcoef c) 0))
-      (mc_rows c) (mc_cols c) (mc_impl c) in
-  (* the code as it stands (integration element read at the position) or the repaired code
-     (docs/fixes/c13_multiplication_operator.diff); they differ only on restricted supports *)
-  run mult_op_core || run mult_op_intended.
+  let f := match mc_mode c with O => mult_op_core | _ => mult_op_inner end in
+  matrix_ok (mc_tol c)
+    (f (gd_nel (mc_grid c)) (dim_of (mc_kr c)) (mc_rule c) (intel_of (mc_grid c))
+       (to_space (mc_test c)) (to_space (mc_trial c)) (to_space (mc_fun c))
+       (b (mc_kt c) (mc_test c)) (b (mc_kr c) (mc_trial c)) (b (mc_kf c) (mc_fun c))
+       (fun k => nth k (mc_gcoef c) 0))
+    (mc_rows c) (mc_cols c) (mc_impl c).
